@@ -268,6 +268,31 @@ def one(case):
                 fail(js['fingerprints'], 'no fingerprint for a certificate', 'json-fingerprints-cert')
         except Exception as e:
             fail(repr(e) + out2[-200:], 'JSON', 'json')
+    elif kind == 'mixed':
+        # several host keys on one server: each key's entry is about that key only (a certificate probed first must not lend its CA to a plain key)
+        _, names = case
+        blobs = {'ssh-rsa-cert-v01@openssh.com': F.cert_blob('rsa', 3072, F.rsa_blob(1024)), 'ssh-ed25519-cert-v01@openssh.com': F.cert_blob('ed25519', 256, F.rsa_blob(2048)),
+                 'ssh-ed25519': F.ed25519_blob(), 'rsa-sha2-512': F.rsa_blob(4096), 'ssh-rsa': F.rsa_blob(4096)}
+        st, out, srv = audit(list(names), {k: blobs[k] for k in names}, [])
+        st2, out2, _ = audit(list(names), {k: blobs[k] for k in names}, ['-j'])
+        want_sfx = {'ssh-rsa-cert-v01@openssh.com': '3072-bit cert/1024-bit RSA CA', 'ssh-ed25519-cert-v01@openssh.com': '256-bit cert/2048-bit RSA CA',
+                    'ssh-ed25519': None, 'rsa-sha2-512': '4096-bit', 'ssh-rsa': '4096-bit'}
+        try:
+            js = json.loads(out2)
+        except Exception as e:
+            fail(repr(e), 'JSON', 'json'); return fails
+        for nme in names:
+            line = kex_line(out, nme)
+            sfx = size_suffix(line, nme) if line else None
+            if sfx != want_sfx[nme]:
+                fail({'name': nme, 'suffix': sfx}, want_sfx[nme], 'mixed-keys-text')
+            e = [k for k in js['key'] if k['algorithm'] == nme][0]
+            is_cert = '-cert-' in nme
+            if (not is_cert and ('casize' in e or 'ca_algorithm' in e)) or (is_cert and e.get('ca_algorithm') != 'ssh-rsa'):
+                fail({'name': nme, 'json': {k: v for k, v in e.items() if k != 'notes'}}, 'CA fields only on certificate entries', 'mixed-keys-json')
+            got = size_notes(notes_of(out, 'key', nme))
+            if not is_cert and any('CA key' in t for _, t in got):
+                fail({'name': nme, 'notes': got}, 'no CA note on a plain key', 'mixed-keys-notes')
     return fails
 ORDERS = [p for r in (1, 2, 3) for p in itertools.permutations(RSA, r)]
 sizes = sorted(set(list(range(512, 16385, 64)) + [2048 + 16 * k for k in range(-8, 9)] + [3072 + 16 * k for k in range(-8, 9)]))
@@ -286,6 +311,9 @@ for j, (ck, cb) in enumerate(CAS):
     for i, hb in enumerate((1024, 2032, 2048, 3056, 3072, 4096)):
         work.append(('cert', 'rsa', hb, ck, cb, RSACERT[(i + j) %% 3]))
     work.append(('cert', 'ed25519', 256, ck, cb, 'ssh-ed25519-cert-v01@openssh.com'))
+for names in (('ssh-rsa-cert-v01@openssh.com', 'ssh-ed25519'), ('ssh-ed25519-cert-v01@openssh.com', 'ssh-ed25519'), ('ssh-rsa-cert-v01@openssh.com', 'rsa-sha2-512', 'ssh-ed25519'),
+              ('ssh-ed25519', 'ssh-rsa', 'ssh-rsa-cert-v01@openssh.com', 'ssh-ed25519-cert-v01@openssh.com')):
+    work.append(('mixed', names))
 res = run_pool(one, work)
 failures, per = [], {}
 for fl in res:
@@ -422,6 +450,12 @@ def one(tr):
     keys = srv_keys_cert if cert else KEYS
     report = names_reported(out, [('kex', KEX), ('key', keys), ('enc', ENC), ('mac', MAC)])
     any_alg = any(l.startswith(('(kex) ', '(key) ', '(enc) ', '(mac) ')) for l in out.split('\n'))
+    if fault[0] == 'segment' and stage != 'banner':
+        # delivery in 1-byte segments is not misbehaviour at all: the report is the one of the undisturbed server
+        if (st, out) != BASE[cert]:
+            a, b = out.split('\n'), BASE[cert][1].split('\n')
+            diff = [l for l in a if l not in b][:3] + ['MISSING: ' + l for l in b if l not in a][:3]
+            fail({'status': st, 'differs': diff}, 'the same report as without segmentation (status %%d)' %% BASE[cert][0], 'segmentation-changes-report')
     if n >= 1:
         # the initial handshake was well-formed: a complete algorithm report, whatever the probes met
         if report or st not in (0, 2, 3):
@@ -435,6 +469,10 @@ def one(tr):
             fail({'status': st, 'last line': tail}, 'status 1 when no algorithm report is shown', 'no-report-status')
     return fails
 srv_keys_cert = ['ssh-rsa-cert-v01@openssh.com', 'ssh-ed25519']
+BASE = {}
+for c_ in (False, True):
+    _, _, st_, out_ = stage_map(c_)
+    BASE[c_] = (st_, out_)
 work = fault_triples(TIER)
 res = run_pool(one, work)
 failures, per = [], {}
